@@ -32,3 +32,27 @@ Theorem C18_import_denotes_all_directories : forall W, (2 <= W)%nat -> forall ch
   forall t, tame2 t -> forall b sz, import W chunk hash t = Ok (b, sz) -> denotes2 hash t b.
 Proof. exact import_denotes2. Qed.
 Print Assumptions C18_import_denotes_all_directories.
+
+(* end to end: import the tree, resolve ANY path of the on-disk tree over the stored blocks (plain and sharded directories
+   alike), and - when the path names a regular file - read it: the bytes are the on-disk bytes, as a whole, under every
+   Seek/Read history, with the true length *)
+From UV Require Import Build.ImportResolve Sel.PathLoads File.Compose.
+Theorem C18_import_resolve_read : forall W, (2 <= W)%nat -> forall chunk, (forall b, concat (chunk b) = b) ->
+  forall hash, (forall k, wf_bytes (hash k) = true) -> (forall k, length (hash k) = 8%nat) ->
+  forall t b sz segs c,
+  tame2 t -> import W chunk hash t = Ok (b, sz) -> fs_resolve t segs = Some (FFile c) ->
+  exists b', fst (walk_path Refine.nofault hash b segs) = Ok b'
+    /\ fst (fst (drain_all (stream Spec.nofault b' 0) [] [])) = c
+    /\ snd (drain_all (stream Spec.nofault b' 0) [] []) = StEOF
+    /\ (forall ops, map forget_loads (reader_run Spec.nofault b' rs0 ops) = abs_run c 0 ops)
+    /\ node_length b' = Ok (zlen c).
+Proof. exact import_resolve_read. Qed.
+Print Assumptions C18_import_resolve_read.
+
+Theorem C18_import_then_resolve : forall W, (2 <= W)%nat -> forall chunk, (forall b, concat (chunk b) = b) ->
+  forall hash, (forall k, wf_bytes (hash k) = true) -> (forall k, length (hash k) = 8%nat) ->
+  forall t b sz segs n,
+  tame2 t -> import W chunk hash t = Ok (b, sz) -> fs_resolve t segs = Some n ->
+  exists b', fst (walk_path Refine.nofault hash b segs) = Ok b' /\ denotes2 hash n b'.
+Proof. exact import_then_resolve. Qed.
+Print Assumptions C18_import_then_resolve.
